@@ -265,6 +265,10 @@ func (f *Function) LoadForm() Object {
 				switch ta := a.(type) {
 				case nil:
 				// already nil
+				case List:
+					// A list in an evaluated position is a call that has not been
+					// compiled yet, it is its own source.
+					form[i+1] = ta
 				case LoadFormer:
 					form[i+1] = ta.LoadForm()
 				default:
